@@ -4,7 +4,7 @@ import ast
 from ..program import AnalysisError, U, own_nodes, walk_no_nested
 from ..dataflow import ReachingDefs, defs_of_node
 from ..consteval import fold
-from .common import (need, guards_of, calls_to, ext_calls, all_paths_pass, succs, normal_succs, path_conditions,
+from .common import (match_exact, guard_atom_sets, path_atom_sets, unmatched, need, guards_of, calls_to, ext_calls, all_paths_pass, succs, normal_succs, path_conditions,
                      is_param, interval_of, arg_of, default_of, INF, stores_in_package)
 from . import C05
 
@@ -99,9 +99,9 @@ def branch(R):
     AP = ('auto_pong', True)
     allowed = {PING, AP}
     for l in path_conditions(R, g, rd, g.entry, n):
-        extra = {x for x in l if x[1] and x not in allowed} | {x for x in l if not x[1] and x[0] in (PING[0], AP[0])}
         # negative literals of *other* event-name tests are fine (elif chain)
-        extra = {x for x in extra if not (x[0].startswith('%s.name == ' % ev) and not x[1])}
+        extra = unmatched(path_atom_sets(l), lambda f: bool(f & allowed) or any(
+            t.startswith('%s.name == ' % ev) and not p_ and t != PING[0] for (t, p_) in f))
         ok = PING in l and AP in l and not extra
         R.ob('C14.branch', 'pong exactly under ping and auto_pong', ok,
              'the pong is sent under %s (required: event.name == "ping" and auto_pong, nothing else)' % sorted(l),
